@@ -34,6 +34,7 @@ META = {
 # (template, kwargs, number of agents)
 QUICK = [
     (("TA", dict(T=2)), 2),
+    (("TA", dict(T=2, lower=True)), 2),  # lower-bound constraint: infeasible choices precede the feasible ones
     (("TB", dict(T=2)), 2),
     (("TC", dict(T=2, nw=3, nc=2)), 2),
     (("TD", dict(T=1, nw=3)), 2),
@@ -43,6 +44,7 @@ QUICK = [
     (("TH", dict(T=2)), 3),
     (("TM", dict(T=2)), 2),
     (("TE", dict(T=2)), 2),
+    (("TP", dict(T=2)), 2),
 ]
 THOROUGH = QUICK + [
     (("TD", dict(T=2, nw=3)), 2),
